@@ -14,6 +14,10 @@ CLAIMED = {
          "Proved: moving an allocation to a superset never increases the usage of any node set; when overcommit handling succeeds every zone of the zone table intersecting the handled nodes fits its capacity; reservations are never eligible for moving (regenerated priority table); the literal capacity clause is refuted on a 3-node witness (known finding C07:union-overcommit). Every other clause (strict types, normal memory, monotone moves, exact updates, all assigned zones fit) is evaluated on every implementation state of the correspondence run, with all 2^n-1 node subsets enumerated.",
          "Partial: the lift to all assigned zones over whole histories, strict-type confinement and update exactness are sampled (model==code exact on the traces), not proved. Known finding C07:union-overcommit is filtered by class; oversubscription of an assigned zone is still a violation.",
          "DESIGN.md §6 C07"),
+ "C17": ("proof", "Lean 4 invariant proof over all event histories + regenerated statement-order facts + exhaustive bounded correspondence",
+         "Proved by induction over every event list: the agent's current config is the effective one (node-specific if it exists, else group/default), a valid effective config is the most recently delivered one, no invalid config is ever delivered; per-step theorems: group updates never deliver over or replace a node config but are remembered, node deletion falls back to the current group config, duplicates (same uid+generation, generation != 0) change nothing, valid non-duplicate node updates are delivered in that step. Tie: regenerated facts on statement order in updateGroupConfig/updateNodeConfig/updateConfig/sameConfigVersion, and exhaustive correspondence over all sequences of length <= 4 (quick) / 5 (thorough) over 14 events plus random longer ones, with predicates evaluated from the events alone.",
+         "Trusted: kernel, extractor, harness/driver. notifyFn errors, status patching and watch plumbing (Start's select loop) are outside the model.",
+         "DESIGN.md §6 C17"),
  "C20": ("proof", "Lean 4 theorems over an integer model + regenerated constants + exhaustive correspondence on the property's domain",
          "All five arithmetic clauses are Lean theorems for every input (shares round trip <=1/<=2, exact multiples of 125, quota exact from 10 mCPU, monotonicity, OOM table total and invertible for every capacity >= 1 MiB and every float-estimate behaviour within tolerance). The model is tied to the code by regenerated constants (obligation gen_consts_ok) and by running the real functions on every value of the property's domain (0..256000 mCPU, shares 2..262144) plus sampled OOM tables and estimateResourceRequirements cases; the driver also evaluates the property's predicates on the implementation's own values.",
          "Trusted: Lean kernel (+propext, Classical.choice, Quot.sound), the extractor, harness and driver; float64 == exact round-half-up is checked exhaustively on the domain, sampled outside; OOM table sampled over capacities 2^20..2^50.",
